@@ -21,6 +21,7 @@ def run(ctx):
     ctx.rule("R04.c", "coalescing: a watcher already queued (by identity) is not queued again, a different one is; the flush maps (name, what) -> last event in queue order, "
                       "empties both queues before running the watchers and loops until no event is left", floor=4)
     ctx.rule("R04.g", "the flush runs the queued watchers in precedence order on every path (stable sort of the queue)", floor=1)
+    ctx.rule("R04.i", "every writer that extends the watcher queue keeps it free of duplicates by identity (an append is guarded by an identity test, a merge filters by identity)", floor=2)
     ctx.rule("R04.d", "discard_events restores copies of the queues taken before the body (not aliases)", floor=2)
     ctx.rule("R04.e", "update(...) captures the previous values (of every given key) and links before applying, and _ParametersRestorer.__exit__ re-applies them through _update", floor=3)
     ctx.rule("R04.f", "trigger re-submits the CURRENT values of the named parameters (plus the transient True of Events) under the trigger flag", floor=1)
@@ -137,6 +138,43 @@ def run(ctx):
 
     from checks.shared import dispatch_loops_sorted
     dispatch_loops_sorted(ctx, "R04.g", ((P + "Parameters._batch_call_watchers", "_execute_watcher"),))
+
+    # ------------------------------------------------------------ R04.i
+    n_ext = 0
+    for g in ctx.repo.all_funcs("param.parameterized"):
+        if "_state_watchers" not in ast.unparse(g.node):
+            continue
+        gcfg = None
+        for st in walk_stmts(g.node):
+            ext = None
+            if isinstance(st, ast.AugAssign) and isinstance(st.op, ast.Add) and ctx.facts.field_of(st.target, {}) == "_state_watchers":
+                ext = ("merge", st.value)
+            if isinstance(st, ast.Expr) and isinstance(st.value, ast.Call) and isinstance(st.value.func, ast.Attribute) \
+                    and st.value.func.attr in ("append", "extend") and ctx.facts.field_of(st.value.func.value, {}) == "_state_watchers":
+                ext = (st.value.func.attr, st.value.args[0] if st.value.args else None)
+            if ext is None:
+                continue
+            n_ext += 1
+            kind, val = ext
+            ok = False
+            if kind == "append":
+                gcfg = gcfg or ctx.facts.cfg(g)
+                for nd in gcfg.nodes_of(st):
+                    for d in gcfg.dominating(nd):
+                        if d.kind == "br" and any(isinstance(c, ast.Compare) and isinstance(c.ops[0], (ast.Is, ast.IsNot)) for c in ast.walk(d.ast)) \
+                                and "_state_watchers" in norm(d.ast):
+                            ok = True
+            else:
+                ok = isinstance(val, (ast.ListComp, ast.GeneratorExp)) and any(
+                    isinstance(c, ast.Compare) and isinstance(c.ops[0], (ast.Is, ast.IsNot)) for cond in val.generators[0].ifs for c in ast.walk(cond)) \
+                    and any("_state_watchers" in norm(cond) for cond in val.generators[0].ifs)
+            if ok:
+                ctx.ok("R04.i", g, st, "%s into the watcher queue keeps identity-uniqueness" % kind)
+            else:
+                ctx.fail("R04.i", g, st, "`%s` extends the watcher queue without filtering out watchers that are already queued (by identity): such a watcher runs twice at the flush" % norm(st)[:80],
+                         key="%s::duplicate-queue-entries" % g.qualname,
+                         input="with batch_call_watchers(p): p.a = 1; p.param.trigger('a')  -> every watcher of a runs twice at the flush")
+    ctx.require(n_ext >= 2, "fewer than 2 sites extending the watcher queue found (%d)" % n_ext)
 
     # ------------------------------------------------------------ R04.d
     de = ctx.repo.func(P + "discard_events")
